@@ -54,7 +54,9 @@ impl FastExp<f64> for f64 {
 
             f64::from_bits(bits as u64) * f2
         } else {
-            0.0
+            // Outside the range of the approximation (rare): use the exact
+            // exponential instead of flushing representable values to zero.
+            self.exp()
         }
     }
 }
